@@ -112,8 +112,14 @@ func GetProofSubset(proof Proof, hashes []Hash, wants []uint64, numLeaves uint64
 		return nil, Proof{}, errors.New("missing")
 	}
 	targetHashesWithPos := toHashAndPos(proof.Targets, hashes)
+	calculated, _, err := calculateHashes(numLeaves, hashes, proof)
+	if err != nil {
+		return nil, Proof{}, err
+	}
+	sort.Sort(calculated)
 	positions, _ := ProofPositions(proofTargetsCopy, numLeaves, TreeRows(numLeaves))
 	proofPos := toHashAndPos(positions, proof.Proof)
+	proofPos = mergeSortedHashAndPos(calculated, proofPos)
 	sortedWants := copySortedFunc(wants, uint64Cmp)
 	targetHashesWithPos = getHashAndPosSubset(targetHashesWithPos, sortedWants)
 	retHashes := make([]Hash, len(wants))
